@@ -142,6 +142,7 @@ func specInterrupts() bool {
 //@ invariant [INV-width] 1 <= levelOutputWidth && levelOutputWidth <= 5
 //@ invariant [INV-graphic] forall(i, 0, len(isGraphic), isGraphic[i] >= 160)
 //@ invariant [INV-hex] len(hex) == 16 && forall(i, 0, 16, (hex[i] >= 48 && hex[i] <= 57) || (hex[i] >= 97 && hex[i] <= 102))
+//@ invariant [INV-hexdigits] hex[0] == 48 && hex[1] == 49 && hex[2] == 50 && hex[3] == 51 && hex[4] == 52 && hex[5] == 53 && hex[6] == 54 && hex[7] == 55 && hex[8] == 56 && hex[9] == 57 && hex[10] == 97 && hex[11] == 98 && hex[12] == 99 && hex[13] == 100 && hex[14] == 101 && hex[15] == 102
 
 // ---------------------------------------------------------------- C01 gating / C12 termination
 
@@ -2343,7 +2344,7 @@ func specTellable(m LogWriter) bool {
 //@   keeps PrintCtx.prefix except pc
 //@   keeps PrintCtx.inGroupedMode except pc
 //@   requires [C09.ungrouped] !pc.inGroupedMode
-//@   ensures [C09.prefix] same(pc.prefix, old(pc.prefix)) && !pc.inGroupedMode
+//@   ensures [C05.C09.prefix] same(pc.prefix, old(pc.prefix)) && !pc.inGroupedMode
 //@   at call slices.SortStableFunc[github.com/hedzr/logg/slog.Attrs github.com/hedzr/logg/slog.Attr] assert [C07.sorted] callee.x == kvps
 //@   at call github.com/hedzr/logg/slog.dedupeSlice[github.com/hedzr/logg/slog.Attrs github.com/hedzr/logg/slog.Attr] assert [C07.unique] callee.x == kvps
 //@   at call (Attr).Key effect ghost.ioKeyed = 0
@@ -2351,10 +2352,12 @@ func specTellable(m LogWriter) bool {
 //@   at call github.com/hedzr/logg/slog/internal/strings.DotPrefix assert [C05.dotted-args] same(callee.leaf, ghost.ioKey1) && len(callee.prefix) == 1 && same(callee.prefix[0], prefix)
 //@   at call (*PrintCtx).appendValue assert [C05.dotted] pc.jsonMode || same(pc.prefix, ghost.ioDot)
 //@   at call (*PrintCtx).appendValue assert [C05.keyed] ghost.ioKeyed == 1 || typeis(v, groupedValue) || old(pc.inGroupedMode)
-//@   loop 1 invariant [C09.restore] same(pc.prefix, prefix) && !pc.inGroupedMode && same(prefix, old(pc.prefix))
+//@   loop 1 invariant [C05.C09.restore] same(pc.prefix, prefix) && !pc.inGroupedMode && same(prefix, old(pc.prefix))
 
 //@ func (*PrintCtx).appendValue
-//@   props C02 C09
+//@   props C02 C05 C09
+//@   at maybe-call (*PrintCtx).pcAppendStringValue assert [C05.value-quoted] implies(!s.jsonMode, same(callee.str, "<nil>"))
+//@   at maybe-call (*PrintCtx).Write assert [C05.value-quoted] false
 //@   auto
 //@   nokeeps PrintCtx.prefix, PrintCtx.inGroupedMode, ghost.ioKeyed, ghost.ioColor, ghost.ioDot
 //@   keeps PrintCtx.prefix except s
@@ -2447,24 +2450,24 @@ func specTellable(m LogWriter) bool {
 //@   ensures [C09.ungrouped] !pc.inGroupedMode
 
 //@ func (*gkvp).SerializeValueTo
-//@   props C02 C07 C09
+//@   props C02 C05 C07 C09
 //@   at call serializeAttrs assert [C07.group-sorted] callee.pc == pc && callee.kvps == s.items
 //@   auto
 //@   nokeeps PrintCtx.prefix, PrintCtx.inGroupedMode, ghost.ioKeyed, ghost.ioColor, ghost.ioDot
 //@   keeps PrintCtx.prefix except pc
 //@   keeps PrintCtx.inGroupedMode except pc
 //@   requires [C09.ungrouped] !pc.inGroupedMode
-//@   ensures [C09.prefix] same(pc.prefix, old(pc.prefix)) && !pc.inGroupedMode
+//@   ensures [C05.C09.prefix] same(pc.prefix, old(pc.prefix)) && !pc.inGroupedMode
 
 //@ func (Attrs).SerializeValueTo
-//@   props C02 C07 C09
+//@   props C02 C05 C07 C09
 //@   at call serializeAttrs assert [C07.group-sorted] callee.pc == pc && callee.kvps == s
 //@   auto
 //@   nokeeps PrintCtx.prefix, PrintCtx.inGroupedMode, ghost.ioKeyed, ghost.ioColor, ghost.ioDot
 //@   keeps PrintCtx.prefix except pc
 //@   keeps PrintCtx.inGroupedMode except pc
 //@   requires [C09.ungrouped] !pc.inGroupedMode
-//@   ensures [C09.prefix] same(pc.prefix, old(pc.prefix)) && !pc.inGroupedMode
+//@   ensures [C05.C09.prefix] same(pc.prefix, old(pc.prefix)) && !pc.inGroupedMode
 
 //@ func (*Entry).fromCtx
 //@   props C02 C07
@@ -2523,8 +2526,9 @@ func specTellable(m LogWriter) bool {
 //@   auto
 
 //@ func (*PrintCtx).appendBytes
-//@   props C02
+//@   props C02 C04 C05 C06
 //@   auto
+//@   ensures [C05.quoted] grown(s.buf, old(s.buf)) && len(s.buf) >= old(len(s.buf)) + 2 && forall(k, 0, old(len(s.buf)), s.buf[k] == old(s.buf[k])) && s.buf[old(len(s.buf))] == 34 && s.buf[len(s.buf)-1] == 34 && forall(k, old(len(s.buf)), len(s.buf), s.buf[k] >= 32 && s.buf[k] != 127) && forall(k, old(len(s.buf))+1, len(s.buf)-1, implies(s.buf[k] == 34, s.buf[k-1] == 92))
 
 //@ func (*PrintCtx).appendStringSlice
 //@   props C02
